@@ -35,7 +35,7 @@ FIELD_WORDS = ["alpha", "bravo", "count", "delta", "echo", "flag", "gold", "hp",
 # identifiers colliding with generated code, degenerate like the locals `reader`, `writer`, `data`, `result`, `i`
 ENUM_VALUE_WORDS = ["None", "Ok", "Fail", "Male", "Female", "Up", "Down", "Left", "Right", "Normal", "Hidden",
                     "Admin", "Guest", "Open", "Closed", "Red", "Green", "Blue", "Big", "Small", "A", "B2", "NPC",
-                    "OnlyOne", "Busy", "Full", "Empty", "Used"]
+                    "OnlyOne", "Busy", "Full", "Empty", "Used", "Unknown", "Other", "Invalid", "Default"]
 # class names that collide with names the generated modules import or with public classes of the library
 FORBIDDEN_TYPE_NAMES = {
     "Optional", "Union", "Iterable", "EoWriter", "EoReader", "SerializationError", "IntEnum", "Packet",
@@ -788,6 +788,19 @@ def add_alias_named_type(tree, rng):
     return out
 
 
+def add_reserved_enum(tree, rng):
+    """An enum that is declared (with a comment) but has no values yet - a placeholder no field refers to: the
+    generator emits a class whose body is the docstring, which imports fine."""
+    rel = rng.choice(sorted(r for r in tree if "<protocol>" in tree[r]))
+    if any('name="ReservedForLater"' in x for x in tree.values()):
+        return tree
+    xml = ('    <enum name="ReservedForLater" type="char">\n        <comment>Reserved; no values are assigned yet.</comment>\n'
+           '    </enum>\n')
+    out = dict(tree)
+    out[rel] = tree[rel].replace("</protocol>", xml + "</protocol>")
+    return out
+
+
 def gen_tree(rng, profile="full", upward_refs=False):
     g = SpecGen(rng, profile)
     g.k.upward_refs = upward_refs
@@ -798,4 +811,6 @@ def gen_tree(rng, profile="full", upward_refs=False):
         tree = add_twin_cases(tree, rng)
     if rng.random() < 0.15:
         tree = add_alias_named_type(tree, rng)
+    if rng.random() < 0.08:
+        tree = add_reserved_enum(tree, rng)
     return tree
